@@ -229,6 +229,12 @@ func c01Gen(tier string, emit func(c01Case)) {
 	for _, p := range c01DotPool {
 		emit(c01Case{Routes: []refmodel.RouteDef{{Path: p, Methods: []string{"GET"}}}, Methods: []string{"GET", "HEAD"}, Paths: c01DotPaths})
 	}
+	// literal first segments of every length 40..80 bytes under all nine methods, next to a route that begins with a variable
+	for L := 40; L <= 80; L++ {
+		seg := strings.Repeat("s", L)
+		emit(c01Case{Routes: []refmodel.RouteDef{{Path: "/{a}/{b}", Methods: refmodel.Methods}, {Path: "/" + seg + "/{x}", Methods: refmodel.Methods}, {Path: "/" + seg + "/z/{x}", Methods: []string{"GET", "OPTIONS"}}},
+			Methods: refmodel.Methods, Paths: []string{"/" + seg + "/1", "/" + seg[1:] + "/1", "/" + seg + "s/1", "/" + seg + "/z/1", "/" + seg}})
+	}
 	// every all-GET ordered pair again with every path looked up 130 times in a row (hit counters, promotion thresholds)
 	permute(c01Pool, 2, func(pats []string) {
 		emit(c01Case{Routes: []refmodel.RouteDef{{Path: pats[0], Methods: []string{"GET"}}, {Path: pats[1], Methods: []string{"GET"}}}, Methods: []string{"GET"}, Repeat: 130})
@@ -410,7 +416,7 @@ func c01Requests(c c01Case, r *rux.Router, rec *hitRec, tb *refmodel.Table, note
 var c01Spec = fw.Spec[c01Case]{
 	ID:    "C01",
 	Level: "model_checking",
-	Rule: "complete product: ordered route tables of <=K distinct patterns from a 27-pattern pool (every index/tier shortcut has colliding members) x method sets x registration APIs (Add, AddRoute(NewRoute), AddNamed, NewNamedRoute.AttachTo, GET/POST/... helpers, options via WithOptions, the pattern split into a Group prefix and a route path) (+ HEAD requests against every ordered pair of a GET-only and a HEAD-only route) (+ StrictLastSlash tables: ordered pairs over an 11-pattern pool of routes that end in '/' or whose tail may be empty, and the pairs of the main pool, with every path also requested with a trailing slash) (+ on caching routers every ordered pair of a one-method and a two-method route with the methods requested in both orders) (+ ordered pairs over 7 patterns whose literal text holds adjacent dots against every spelling with one dot replaced or dropped) (+ every all-GET ordered pair again with every path looked up 130 times in a row and the whole pass repeated afterwards) (+ every ordered pair again after the router's inspection API was used, and on a caching router with the second route registered only after a first round of all requests) x request methods x all 259 paths of <=3 segments over {a,b,a.b,axb,12,q.html}; " +
+	Rule: "complete product: ordered route tables of <=K distinct patterns from a 27-pattern pool (every index/tier shortcut has colliding members) x method sets x registration APIs (Add, AddRoute(NewRoute), AddNamed, NewNamedRoute.AttachTo, GET/POST/... helpers, options via WithOptions, the pattern split into a Group prefix and a route path) (+ HEAD requests against every ordered pair of a GET-only and a HEAD-only route) (+ StrictLastSlash tables: ordered pairs over an 11-pattern pool of routes that end in '/' or whose tail may be empty, and the pairs of the main pool, with every path also requested with a trailing slash) (+ on caching routers every ordered pair of a one-method and a two-method route with the methods requested in both orders) (+ ordered pairs over 7 patterns whose literal text holds adjacent dots against every spelling with one dot replaced or dropped) (+ literal first segments of every length 40..80 bytes under all nine methods next to a route that begins with a variable) (+ every all-GET ordered pair again with every path looked up 130 times in a row and the whole pass repeated afterwards) (+ every ordered pair again after the router's inspection API was used, and on a caching router with the second route registered only after a first round of all requests) x request methods x all 259 paths of <=3 segments over {a,b,a.b,axb,12,q.html}; " +
 		"each (table,method,path) is one evaluation: Router.Match and ServeHTTP on the real router vs refmodel.Resolve; non-trivial = at least two routes qualify or the winner is not the first registered route",
 	Assume: []string{
 		"patterns and paths are drawn from the stated alphabets; larger tables are covered only as far as the small-scope hypothesis goes",
